@@ -449,6 +449,21 @@ func TestC04(t *testing.T) {
 					outer.Exts[i].Data[0] = 1
 				}
 				desc = append(desc, "outer_ech_type_inner")
+				if len(fs) == 1 {
+					// the rule does not depend on the versions the outer hello offers
+					switch rapid.IntRange(0, 3).Draw(t, "inner_outer_versions") {
+					case 1:
+						if vi := outer.Find(hello.ExtSupportedVersions); vi >= 0 {
+							outer.Exts = append(outer.Exts[:vi], outer.Exts[vi+1:]...)
+							desc = append(desc, "outer_no_supported_versions")
+						}
+					case 2:
+						if vi := outer.Find(hello.ExtSupportedVersions); vi >= 0 {
+							outer.Exts[vi].Data = hello.VersionsExt([]uint16{0x0303, 0x0302})
+							desc = append(desc, "outer_tls12_only")
+						}
+					}
+				}
 			} else {
 				ty := byte(rapid.IntRange(2, 255).Draw(t, "ech_type"))
 				outer.Exts[i].Data[0] = ty
